@@ -94,10 +94,12 @@ def expand_locals(expr: ast.expr, amap: Dict[str, ast.expr], keep=frozenset()) -
 def norm_opts(expr: ast.expr) -> str:
     """Normal form of an options expression: ``options or {}`` == ``options``."""
     e = expr
-    if isinstance(e, ast.BoolOp) and isinstance(e.op, ast.Or) and len(e.values) == 2:
+    while isinstance(e, ast.BoolOp) and isinstance(e.op, ast.Or) and len(e.values) == 2:
         b = e.values[1]
         if isinstance(b, ast.Dict) and not b.keys:
             e = e.values[0]
+        else:
+            break
     return ast.unparse(e)
 
 
